@@ -29,6 +29,8 @@ pub fn boundaries_within(a: &Operand, b: &Operand, d: f64) -> bool {
 fn check_pair(stats: &mut Stats, rng: &mut Rng, a: &Vec<P>, b: &Vec<P>, class: &str, n_uniform: usize, n_near: usize) {
     let (oa, ob) = (Operand::new(a), Operand::new(b));
     let pr = probes(rng, &[&oa, &ob], n_uniform, n_near);
+    let class = &format!("{}{}", class, near_contact_suffix(&[a, b]));
+    if class.ends_with(".vertex_near_boundary") { stats.count("pair.vertex_near_boundary"); }
     let detail = || format!("A={:?} B={:?}", a, b);
     let (mut n_in_a, mut n_in_b, mut n_in_both) = (0, 0, 0);
     for p in &pr { let (ia, ib) = (oa.contains(*p, false), ob.contains(*p, false)); if ia { n_in_a += 1; } if ib { n_in_b += 1; } if ia && ib { n_in_both += 1; } }
